@@ -33,6 +33,8 @@ CLAIMS = {
             NOTE_ENGINE + "; atomic file-system calls; process crash (no byte loss) for the adoption part"),
     "C20": ("Theorems C20_*: for every source configuration (both I/O types), every history (rotations, batches, merges, adopted merges with hint file, restarts) and every configuration used for the copy, the directory Backup produces opens as a database with exactly the mapping the source had at that time and all invariants (so its further behaviour follows from C06_step); the source keeps its mapping, its relation to a pending merge and goes on; the physical-size invariant this rests on holds in every reachable state; correspondence run with backups at random points (incl. values ending in zero bytes, a large write right after an MMap backup, refreshing one backup directory around an adopted merge of uniform-size records), every copy opened, inspected and written to",
             NOTE_ENGINE + "; directory lock not modelled here (C16); refreshing a non-empty destination is outside the theorems"),
+    "C08": ("Theorems C08_*: for any number of clients, any programs over Put/Delete/Get and EVERY schedule of their atomic actions from any reachable state, every completed call returns what the sequential specification returns at the call's linearization point (one of its own actions), a Get between index lookup and file read is immune to the other clients, the live state is the specification state after all linearization points and the log replays to it - so a restart at quiescence recovers exactly the live mapping; the atomic-action decomposition is checked against db.go by a theorem over the lock/append/index-update sequence extracted on every run (T2); the check steps real goroutines through generated schedules against the model, parks writers inside their critical sections to observe blocking, and runs free stress with a per-key linearizability checker and a restart comparison",
+            NOTE_ENGINE + "; theorem at lock granularity: sync.RWMutex, shard locks and the Go memory model trusted; concurrent Merge / iterators / batches covered by execution only"),
     "C10": ("Theorems C10_*: for every index content, EVERY assignment of keys to shards and shard count, each of the three shard-iterator kinds, both directions, every prefix and every call sequence over Rewind/Seek/Next whose Seek targets lie at or ahead of the cursor, (Valid, Key, position of Value) at creation and after every call equal those of a cut into the ordered, prefix-filtered snapshot (refinement proof with an invariant over live and parked shard cursors); the reference yields every key once in order and Seek positions at the first key at or after the target; ListKeys is the forward snapshot; the check runs generated legal call sequences (writes interleaved after creation, several iterators, all index types and shard counts) on the real engine, the model and a reference iterator",
             "theorems are about the Gallina model of index/sharded_index.go, btree.go, skiplist.go, map.go and iterator.go (model/Index.v); container/heap and the ordered containers are abstracted by their contracts; Value is the record at the snapshot's position (C01: positions stay readable while the database is open)"),
     "C15": ("Theorems C15_*: on an explicit heap of byte cells, for every call sequence of a caller that reuses one key buffer and one value buffer, overwrites them with arbitrary bytes after every return and writes arbitrary bytes into every returned slice, an engine that copies at the boundary returns exactly the results of the value-semantic run and ends with its contents; no cell other than the caller's two buffers is ever modified after it exists (returned slices never change); the check runs every generated engine scenario with such a hostile caller (all index types, batches, merges, restarts) against the value-semantic model, with canaries on returned slices",
